@@ -713,29 +713,6 @@ class C07(Base):
     shrink_candidates = C01.shrink_candidates
 
 
-def well_delimited(src, ds, de):
-    """text pieces free of ds[0]; tags ds + body + de with a non-empty body free of de[0]"""
-    i = 0
-    n = len(src)
-    while i < n:
-        if src[i] != ds[0]:
-            i += 1
-            continue
-        if not src.startswith(ds, i):
-            return False
-        j = i + len(ds)
-        if j >= n:
-            return False
-        # body
-        k = j
-        while k < n and src[k] != de[0]:
-            k += 1
-        if k == j or not src.startswith(de, k):
-            return False
-        i = k + len(de)
-    return True
-
-
 class C08(C07):
     id = "C08"
     shared_ops = ["tokenize"]
@@ -744,7 +721,7 @@ class C08(C07):
     rule = ("one case = tokenize on one (string, delimiter pair); kinds and values of the implementation's tokens compared with the "
             "textbook leftmost-shortest scan (Spec.textbook); bounded-exhaustive strings over delimiter characters + filler for the "
             "delimiter pairs named in the property, random documents; failures inside the documented region of the known finding D4 "
-            "(multi-character delimiter, source not WellDelimited, implementation = model) are reported as KNOWN-FINDING; "
+            "(multi-character delimiter, the Lean predicate fitsSource - the hypothesis of the theorem c08_source - false on the source, implementation = model) are reported as KNOWN-FINDING; "
             "non-trivial = at least two tokens")
 
     def cases(self, rng, tier):
@@ -774,8 +751,15 @@ class C08(C07):
             yield self.mk(d, ds, de, label="doc")
 
     def region_not_well_delimited(self, case, verdict):
+        """the region of D4: a multi-character delimiter and a source that does not FIT the delimiters - the Lean predicate
+        Props.C08.fitsSource, i.e. the hypothesis of the theorem c08_source (evaluated by the model driver); every source
+        the theorem covers is outside the region, so a failure there is reported as a violation"""
         m = case.meta
-        return (len(m["ds"]) > 1 or len(m["de"]) > 1) and not well_delimited(m["src"], m["ds"], m["de"])
+        if not (len(m["ds"]) > 1 or len(m["de"]) > 1):
+            return False
+        r = proto.run_model([req("spec", m["src"], m["ds"], m["de"], proto.DEFAULT_CFG, extra=["C08fits"])])[0]
+        k, v = parse_reply(r)
+        return k == "ok" and v == "false"
 
 
 # ============================================================================================ C09
